@@ -14,7 +14,7 @@ Qed.
    `self.__is_shutdown.wait()`; a serve_forever() of another thread starts and clears the event; the shutdown thread
    now waits for an event that only the end of that run will set, and nothing asks that run to end. *)
 Definition lost_wakeup_trace : list tlabel :=
-  [TSpawn KShutdown; TStep 0; TSpawn KServe; TStep 1; TStep 1; TStep 1].
+  [TSpawn KShutdown; TStep 0; TSpawn KServe; TStep 1; TStep 1; TStep 1; TStep 1].
 
 Lemma lost_wakeup_witness :
   standalone_shutdown_guarded = false ->
